@@ -14,7 +14,7 @@ package profiledb
 
 //@ lock Default self.mapsMu
 //@   protects mapof(self.profiles), mapof(self.devices), mapof(self.dedicatedIPToDeviceID), mapof(self.deviceIDToProfileID), mapof(self.humanIDToDeviceID), mapof(self.linkedIPToDeviceID)
-//@   invariant forall id agd.ProfileID :: has(self.profiles, id) ==> self.profiles[id] != nil
+//@   invariant forall id agd.ProfileID :: has(self.profiles, id) ==> self.profiles[id] != nil && self.profiles[id].ID == id
 
 //@ pred DB(db *Default) = db.mapsMu != nil && db.profiles != nil && db.devices != nil && db.dedicatedIPToDeviceID != nil &&
 //@      db.deviceIDToProfileID != nil && db.humanIDToDeviceID != nil && db.linkedIPToDeviceID != nil && db.logger != nil && db.metrics != nil &&
@@ -35,7 +35,7 @@ package profiledb
 //@ fun humanKey(lower agd.HumanIDLower, profile agd.ProfileID) humanIDKey
 //@ pred foundHumanBy(db *Default, pid agd.ProfileID, hid agd.HumanIDLower) = exists q humanIDKey :: q.lower == hid && q.profile == pid && foundHuman(db, q)
 //@ pred foundHuman(db *Default, k humanIDKey) = has(db.profiles, k.profile) && has(db.humanIDToDeviceID, k) && devOK(db, db.humanIDToDeviceID[k]) &&
-//@      db.devices[db.humanIDToDeviceID[k]].HumanIDLower == k.lower
+//@      db.devices[db.humanIDToDeviceID[k]].HumanIDLower == k.lower && db.profiles[db.deviceIDToProfileID[db.humanIDToDeviceID[k]]].ID == k.profile
 
 // C14, background clean-ups: whatever the state of the database when a
 // clean-up finally runs, it may only remove an index entry that no lookup can
@@ -152,11 +152,11 @@ package profiledb
 //@   ensures partial-sync-keeps-the-rest: !isFullSync ==> (forall id agd.DeviceID :: !devInResp(devices, len(devices), id) ==>
 //@             has(db.devices, id) == locked(has(db.devices, id)) && db.devices[id] == locked(db.devices[id]))
 //@   loop 1 invariant -1 <= #i && #i < len(profiles)
-//@   loop 1 invariant forall id agd.ProfileID :: has(db.profiles, id) ==> db.profiles[id] != nil
+//@   loop 1 invariant forall id agd.ProfileID :: has(db.profiles, id) ==> db.profiles[id] != nil && db.profiles[id].ID == id
 //@   loop 1 invariant forall j int :: 0 <= j && j <= #i ==> has(db.profiles, profiles[j].ID) && db.profiles[profiles[j].ID] == profiles[j]
 //@   loop 1 invariant forall id agd.DeviceID :: has(db.devices, id) == (isFullSync ? false : locked(has(db.devices, id))) && (!isFullSync ==> db.devices[id] == locked(db.devices[id]))
 //@   loop 2 invariant -1 <= #i && #i < len(p.DeviceIDs) && -1 <= #i1 && #i1 + 1 < len(profiles) && p == profiles[#i1 + 1] && p != nil
-//@   loop 2 invariant forall id agd.ProfileID :: has(db.profiles, id) ==> db.profiles[id] != nil
+//@   loop 2 invariant forall id agd.ProfileID :: has(db.profiles, id) ==> db.profiles[id] != nil && db.profiles[id].ID == id
 //@   loop 2 invariant forall j int :: 0 <= j && j <= #i1 + 1 ==> has(db.profiles, profiles[j].ID) && db.profiles[profiles[j].ID] == profiles[j]
 //@   loop 2 invariant forall id agd.DeviceID :: has(db.devices, id) == (isFullSync ? false : locked(has(db.devices, id))) && (!isFullSync ==> db.devices[id] == locked(db.devices[id]))
 
